@@ -511,8 +511,18 @@ def r10_array_repeat(text, fired):
     return re.sub(r'(=\s*)\[\s*(\w+)\s*;\s*(\d+)\s*\]', rep, text)
 
 
+def r13_paths(text, fired):
+    """fully qualified std paths of items the unit's prelude models under their short name (same item, `use`d in the file)"""
+    n = len(re.findall(r'\bstd::mem::size_of::<', text))
+    if n:
+        fired.append('R13 std::mem::size_of -> size_of (%d)' % n)
+        text = re.sub(r'\bstd::mem::size_of::<', 'size_of::<', text)
+    return text
+
+
 def rewrite_body(text, fired):
     text = r6_resolve_cfg(text, fired)
+    text = r13_paths(text, fired)
     text = r2_drop_logging(text, fired)
     text = r4_map_err_ctx(text, fired)
     text = r1_eta(text, fired)
